@@ -375,27 +375,43 @@ Proof.
   induction l as [|a l IH]; [reflexivity|]. cbn. destruct (g (f a)); cbn; rewrite IH; reflexivity.
 Qed.
 
+(* the coordinates kept by `coords[:, data != 0]` ARE NumPy's argwhere of the dense array, whether or not
+   the array stores explicit zeros *)
 Lemma nonzero_rowmajor_proof (c : coo Z) :
-  canonical Z c -> prunedb Z.eqb c = true -> c_fill c = 0 ->
-  c_coords c = np_argwhere (todense c).
+  canonical Z c -> c_fill c = 0 ->
+  nz_coords c = np_argwhere (todense c).
 Proof.
-  intros Hc Hp Hf. unfold np_argwhere. cbn [todense d_shape d_flat]. unfold tabulate.
+  intros Hc Hf. unfold np_argwhere, nz_coords. cbn [todense d_shape d_flat]. unfold tabulate.
   rewrite (filter_combine_map (den c) (fun v => negb (v =? 0))).
+  pose proof Hc as [Hr [Hs Hl]].
   apply SS_same_members.
-  - apply Hc.
+  - apply SS_map_fst_filter. assumption.
   - apply SS_filter, all_indices_SS.
-  - intros ix. rewrite (stored_iff Z Z.eqb Z.eqb_eq c ix Hc Hp), filter_In, all_indices_In, Hf.
-    rewrite negb_true_iff, Z.eqb_neq. reflexivity.
+  - intros ix. rewrite filter_In, all_indices_In, negb_true_iff, Z.eqb_neq. split.
+    + intros Hin. apply in_map_iff in Hin. destruct Hin as [[k v] [Ek Hin]]. cbn in Ek. subst k.
+      apply filter_In in Hin. destruct Hin as [Hin Hv]. cbn [snd] in Hv.
+      rewrite negb_true_iff, Z.eqb_neq in Hv.
+      split; [rewrite Forall_forall in Hr; apply Hr; eapply in_combine_l; exact Hin|].
+      rewrite (den_stored Z c ix v Hc Hin). assumption.
+    + intros [Hir Hne].
+      destruct (in_dec (list_eq_dec Z.eq_dec) ix (c_coords c)) as [Hin|Hnin].
+      * assert (exists v, In (ix, v) (entries c)) as [v Hv].
+        { unfold entries. clear - Hin Hl. revert Hl Hin. generalize (c_data c).
+          induction (c_coords c) as [|k ks IH]; intros [|v vs] Hl Hin; cbn in *; try tauto; try discriminate.
+          destruct Hin as [->|Hin]; [exists v; auto|]. destruct (IH vs) as [w Hw]; auto. exists w; auto. }
+        rewrite (den_stored Z c ix v Hc Hv) in Hne. apply in_map_iff. exists (ix, v). split; [reflexivity|].
+        apply filter_In. split; [exact Hv|]. cbn [snd]. rewrite negb_true_iff, Z.eqb_neq. assumption.
+      * exfalso. apply Hne. rewrite (den_unstored Z c ix Hnin). assumption.
 Qed.
 
 Lemma ss_nonzero_spec (c : coo Z) :
-  canonical Z c -> prunedb Z.eqb c = true -> c_fill c = 0 -> c_shape c <> [] ->
+  canonical Z c -> c_fill c = 0 -> c_shape c <> [] ->
   ss_nonzero c = Ok (np_nonzero (todense c)) /\ ss_where1 c = Ok (np_nonzero (todense c))
   /\ ss_argwhere c = Ok (np_argwhere (todense c)).
 Proof.
-  intros Hc Hp Hf Hnd. unfold ss_nonzero, ss_where1, ss_argwhere, np_nonzero, ndimZ, zlen.
-  rewrite Hf. cbn [Z.eqb negb]. change (0 =? 0) with true. cbn [negb].
-  rewrite <- (nonzero_rowmajor_proof c Hc Hp Hf). cbn [todense d_shape].
+  intros Hc Hf Hnd. unfold ss_nonzero, ss_where1, ss_argwhere, np_nonzero, ndimZ, zlen.
+  rewrite Hf. change (0 =? 0) with true. cbn [negb].
+  rewrite <- (nonzero_rowmajor_proof c Hc Hf). cbn [todense d_shape].
   destruct (c_shape c) as [|d sh]; [contradiction|].
   replace (Z.of_nat (length (d :: sh)) =? 0) with false
     by (symmetry; apply Z.eqb_neq; cbn [length]; lia).
@@ -403,8 +419,8 @@ Proof.
 Qed.
 
 Example nonzero_example :
-  let c := mkCOO [2; 3] [[0; 1]; [1; 0]; [1; 2]] [5; -2; 7] 0 in
-  canonicalb c = true /\ prunedb Z.eqb c = true /\ ss_nonzero c = Ok [[0; 1; 1]; [1; 0; 2]].
+  let c := mkCOO [2; 3] [[0; 1]; [1; 0]; [1; 2]] [5; 0; 7] 0 in
+  canonicalb c = true /\ prunedb Z.eqb c = false /\ ss_nonzero c = Ok [[0; 1]; [1; 2]].
 Proof. vm_compute. auto. Qed.
 
 (* ================================================================== unique_values / unique_counts *)
@@ -429,18 +445,26 @@ Proof.
   rewrite Z.eqb_refl in H. discriminate.
 Qed.
 
-(* the unique values of (data followed by at least one fill) = sort (fill :: unique data) *)
+(* the unique values of (data followed by at least one fill) = unique (fill :: unique data) *)
 Lemma unique_with_fill f data k :
-  ~ In f data -> np_unique (data ++ repeat f (S k)) = np_sort (f :: np_unique data).
+  np_unique (data ++ repeat f (S k)) = np_unique (f :: np_unique data).
+Proof.
+  apply SSlt_same_members; try apply np_unique_strict.
+  intros v. rewrite !np_unique_In, in_app_iff. cbn [In]. rewrite np_unique_In. split.
+  - intros [H|H]; [right; assumption|left; apply repeat_spec in H; symmetry; assumption].
+  - intros [<-|H]; [right; left; reflexivity|left; assumption].
+Qed.
+
+(* when the fill does not occur among the stored values this is sort (fill :: unique data) *)
+Lemma unique_cons_notin f data :
+  ~ In f data -> np_unique (f :: np_unique data) = np_sort (f :: np_unique data).
 Proof.
   intros Hn. cbn [np_sort fold_right]. fold (np_sort (np_unique data)).
   rewrite (np_sort_of_sorted (np_unique data)) by (apply SSlt_SSle, np_unique_strict).
   apply SSlt_same_members.
   - apply np_unique_strict.
   - apply insert_strict; [apply np_unique_strict|]. rewrite np_unique_In. assumption.
-  - intros v. rewrite np_unique_In, insert_In, np_unique_In, in_app_iff. split.
-    + intros [H|H]; [right; assumption|left; apply repeat_spec in H; assumption].
-    + intros [->|H]; [right; left; reflexivity|left; assumption].
+  - intros v. rewrite np_unique_In, insert_In. cbn [In]. split; intros [H|H]; auto.
 Qed.
 
 Lemma nnz_vs_size (c : coo Z) :
@@ -461,14 +485,14 @@ Proof.
 Qed.
 
 Lemma unique_values_spec_proof (c : coo Z) :
-  canonical Z c -> prunedb Z.eqb c = true -> shape_ok (c_shape c) ->
+  canonical Z c -> shape_ok (c_shape c) ->
   ss_unique_values c = np_unique_values (todense c).
 Proof.
-  intros Hc Hp Hok. destruct (nnz_vs_size c Hc Hok) as [k [_ [Hperm [Htest _]]]].
+  intros Hc Hok. destruct (nnz_vs_size c Hc Hok) as [k [_ [Hperm [Htest _]]]].
   unfold ss_unique_values, np_unique_values. rewrite Htest, (np_unique_perm_eq _ _ Hperm).
   destruct k as [|k]; cbn [Nat.eqb negb repeat].
   - rewrite app_nil_r. reflexivity.
-  - symmetry. apply (unique_with_fill (c_fill c) (c_data c) k). apply pruned_notin. assumption.
+  - symmetry. apply (unique_with_fill (c_fill c) (c_data c) k).
 Qed.
 
 (* ---- np.argsort *)
@@ -529,39 +553,63 @@ Proof.
   - rewrite sort_kv_fst, combine_map_fst; [reflexivity|]. rewrite zrange_length. reflexivity.
 Qed.
 
+Lemma existsb_eqb_In f l : existsb (Z.eqb f) l = true <-> In f l.
+Proof.
+  rewrite existsb_exists. split.
+  - intros [x [Hx E]]. apply Z.eqb_eq in E. subst. assumption.
+  - intros H. exists f. split; [assumption|apply Z.eqb_refl].
+Qed.
+
+Lemma map_combine_map {A B C} (g : A -> B) (h : A * B -> C) (l : list A) :
+  map h (combine l (map g l)) = map (fun a => h (a, g a)) l.
+Proof. induction l as [|a l IH]; [reflexivity|]. cbn. rewrite IH. reflexivity. Qed.
+
 Lemma unique_counts_spec_proof (c : coo Z) :
-  canonical Z c -> prunedb Z.eqb c = true -> shape_ok (c_shape c) ->
+  canonical Z c -> shape_ok (c_shape c) ->
   ss_unique_counts c = np_unique_counts_arr (todense c).
 Proof.
-  intros Hc Hp Hok. destruct (nnz_vs_size c Hc Hok) as [k [_ [Hperm [Htest Hcnt]]]].
+  intros Hc Hok. destruct (nnz_vs_size c Hc Hok) as [k [_ [Hperm [Htest Hcnt]]]].
   unfold ss_unique_counts, np_unique_counts_arr.
   rewrite (np_unique_counts_perm_eq _ _ Hperm).
   unfold np_unique_counts at 1. rewrite Htest, Hcnt.
-  destruct k as [|k]; cbn [Nat.eqb negb].
+  destruct k as [|k]; cbn [Nat.eqb negb andb].
   - cbn [repeat]. rewrite app_nil_r. reflexivity.
-  - pose proof (pruned_notin c Hp) as Hn.
-    set (f := c_fill c) in *. set (data := c_data c) in *. set (U := np_unique data).
+  - set (f := c_fill c) in *. set (data := c_data c) in *. set (U := np_unique data).
     set (L := data ++ repeat f (S k)).
-    set (V1 := f :: U). set (C1 := Z.of_nat (S k) :: map (fun v => countz v data) U).
-    unfold np_unique_counts.
-    assert (HV : gather (np_argsort V1) V1 = np_unique L).
-    { rewrite gather_argsort. symmetry. apply unique_with_fill. assumption. }
-    rewrite <- HV. f_equal.
-    unfold gather. rewrite map_map. apply map_ext_in. intros i Hi.
-    apply argsort_In in Hi. unfold V1 in Hi. cbn [length] in Hi.
-    destruct (Z.to_nat i) as [|j] eqn:Ej; cbn [nth V1 C1].
-    + unfold L. rewrite countz_app, countz_repeat_same, (countz_notin f data Hn). lia.
-    + assert (Hj : (j < length U)%nat) by lia.
-      rewrite (nth_indep _ 0 (countz 0 data)) by (rewrite map_length; assumption).
-      rewrite (map_nth (fun v => countz v data)).
-      unfold L. rewrite countz_app, countz_repeat_other; [lia|].
-      intros Heq. apply Hn. rewrite <- Heq. apply (np_unique_In _ data). apply nth_In. assumption.
+    destruct (existsb (Z.eqb f) U) eqn:Eex.
+    + (* the fill value is among the stored values: its count grows by the number of unstored positions *)
+      apply existsb_eqb_In in Eex. apply (proj1 (np_unique_In f data)) in Eex.
+      unfold np_unique_counts.
+      assert (HU : np_unique L = U).
+      { apply SSlt_same_members; try apply np_unique_strict. intros v. unfold L, U.
+        rewrite !np_unique_In, in_app_iff. split; [|auto].
+        intros [H|H]; [assumption|]. apply repeat_spec in H. subst v. assumption. }
+      rewrite HU. f_equal. rewrite (map_combine_map (fun v => countz v data)). apply map_ext. intros v.
+      cbn [fst snd]. unfold L. rewrite countz_app. destruct (Z.eqb_spec v f) as [->|Hne].
+      * rewrite countz_repeat_same. reflexivity.
+      * rewrite countz_repeat_other by assumption. lia.
+    + assert (Hn : ~ In f data).
+      { intros Hin. apply (np_unique_In f data) in Hin. apply existsb_eqb_In in Hin. fold U in Hin. congruence. }
+      set (V1 := f :: U). set (C1 := Z.of_nat (S k) :: map (fun v => countz v data) U).
+      unfold np_unique_counts.
+      assert (HV : gather (np_argsort V1) V1 = np_unique L).
+      { rewrite gather_argsort. unfold L. rewrite unique_with_fill. symmetry. apply unique_cons_notin. assumption. }
+      rewrite <- HV. f_equal.
+      unfold gather. rewrite map_map. apply map_ext_in. intros i Hi.
+      apply argsort_In in Hi. unfold V1 in Hi. cbn [length] in Hi.
+      destruct (Z.to_nat i) as [|j] eqn:Ej; cbn [nth V1 C1].
+      * unfold L. rewrite countz_app, countz_repeat_same, (countz_notin f data Hn). lia.
+      * assert (Hj : (j < length U)%nat) by lia.
+        rewrite (nth_indep _ 0 (countz 0 data)) by (rewrite map_length; assumption).
+        rewrite (map_nth (fun v => countz v data)).
+        unfold L. rewrite countz_app, countz_repeat_other; [lia|].
+        intros Heq. apply Hn. rewrite <- Heq. apply (np_unique_In _ data). apply nth_In. assumption.
 Qed.
 
 Example unique_example :
-  let c := mkCOO [6] [[1]; [2]; [3]; [5]] [-3; -2; 1; 1] 0 in
-  canonicalb c = true /\ prunedb Z.eqb c = true
-  /\ ss_unique_values c = [-3; -2; 0; 1] /\ ss_unique_counts c = ([-3; -2; 0; 1], [1; 1; 2; 2]).
+  let c := mkCOO [6] [[1]; [2]; [3]; [5]] [-3; 0; 1; 1] 0 in
+  canonicalb c = true /\ prunedb Z.eqb c = false
+  /\ ss_unique_values c = [-3; 0; 1] /\ ss_unique_counts c = ([-3; 0; 1], [1; 3; 2]).
 Proof. vm_compute. auto. Qed.
 
 (* ================================================================== _sort_coo *)
@@ -1236,16 +1284,29 @@ Qed.
 
 (* one trace (all positions of the reduced axis for one index of the other axes): f is its dense
    meaning, mrc/md the stored positions (increasing) and values *)
+Lemma SS_map_fst_filter_gen {A B} (R : A -> A -> Prop) (ks : list A) (vs : list B) p :
+  StronglySorted R ks -> StronglySorted R (map fst (filter p (combine ks vs))).
+Proof.
+  intros Hs. revert vs. induction Hs as [|k ks Hs IH Hall]; intros [|v vs]; cbn; try constructor.
+  destruct (p (k, v)); cbn; [|apply IH].
+  constructor; [apply IH|]. apply Forall_forall. intros x Hx. apply in_map_iff in Hx.
+  destruct Hx as [[a b] [<- Hin]]. apply filter_In in Hin. destruct Hin as [Hin _]. apply in_combine_l in Hin.
+  rewrite Forall_forall in Hall. apply Hall. assumption.
+Qed.
+
+Lemma filter_length_le {A} (p : A -> bool) l : (length (filter p l) <= length l)%nat.
+Proof. induction l as [|a l IH]; cbn; [lia|]. destruct (p a); cbn; lia. Qed.
+
 Lemma col_first_best maxm fill N (mrc md : list Z) (f : Z -> Z) :
   StronglySorted Z.lt mrc -> Forall (fun i => 0 <= i < N) mrc -> length md = length mrc -> 0 < N ->
   (forall i v, In (i, v) (combine mrc md) -> f i = v) ->
   (forall i, ~ In i mrc -> f i = fill) ->
-  (forall v, In v md -> v <> fill) ->
   first_best_on maxm f N
     (if existsb (fun d => better maxm d fill) md || (zlen md =? N)
-     then znth mrc (np_argbest maxm md) else first_gap (np_sort mrc) (-1) 0).
+     then znth mrc (np_argbest maxm md)
+     else first_gap (np_sort (map fst (filter (fun p => negb (snd p =? fill)) (combine mrc md)))) (-1) 0).
 Proof.
-  intros Hs Hr Hlen HN Hst Hun Hpr.
+  intros Hs Hr Hlen HN Hst Hun.
   assert (Hle : (length mrc <= Z.to_nat N)%nat).
   { apply (SSlt_range_length mrc 0); [assumption|]. eapply Forall_impl; [|exact Hr]. intros; cbn beta in *. lia. }
   assert (Hval : forall j, In j mrc -> exists b, (b < length mrc)%nat /\ nth b mrc 0 = j /\ f j = nth b md 0).
@@ -1286,32 +1347,51 @@ Proof.
         specialize (A3 (Z.of_nat b) ltac:(lia)). unfold zn at 2 in A3. rewrite Nat2Z.id in A3. exact A3.
       * rewrite (Hun j Hnin). apply (Hfill j); [|assumption].
         rewrite Forall_forall in Hr. specialize (Hr _ (nth_In mrc 0 Hb0)). lia.
-  - (* the fill value wins: first unstored position *)
+  - (* the fill value wins: first position that is unstored or stores the fill value itself *)
     apply orb_false_iff in T. destruct T as [T1 T2].
-    assert (Hlt : forall d, In d md -> strictly_better maxm fill d).
-    { intros d Hd. specialize (Hpr d Hd).
+    set (ps' := filter (fun p => negb (snd p =? fill)) (combine mrc md)). set (mrc' := map fst ps').
+    assert (Hlt : forall d, In d md -> d <> fill -> strictly_better maxm fill d).
+    { intros d Hd Hne.
       assert (Hnb : better maxm d fill = false).
       { destruct (better maxm d fill) eqn:E; [|reflexivity].
         assert (existsb (fun d => better maxm d fill) md = true) by (apply existsb_exists; exists d; auto).
         congruence. }
       assert (~ strictly_better maxm d fill) by (rewrite <- better_spec, Hnb; discriminate).
       unfold strictly_better in *. destruct maxm; lia. }
-    rewrite (np_sort_of_sorted mrc) by (apply SSlt_SSle; assumption).
-    destruct (first_gap_spec mrc (-1) Hs) as [G1 [G2 G3]].
-    { eapply Forall_impl; [|exact Hr]. intros; cbn beta in *. lia. }
+    assert (Hs' : StronglySorted Z.lt mrc') by (apply SS_map_fst_filter_gen; assumption).
+    assert (Hsub : forall i, In i mrc' -> exists v, In (i, v) (combine mrc md) /\ v <> fill).
+    { intros i Hi. apply in_map_iff in Hi. destruct Hi as [[i' v] [Ei Hin]]. cbn in Ei. subst i'.
+      apply filter_In in Hin. destruct Hin as [Hin Hv]. cbn [snd] in Hv. rewrite negb_true_iff, Z.eqb_neq in Hv.
+      exists v. auto. }
+    assert (Hr' : Forall (fun i => 0 <= i < N) mrc').
+    { apply Forall_forall. intros i Hi. destruct (Hsub i Hi) as [v [Hin _]]. apply in_combine_l in Hin.
+      rewrite Forall_forall in Hr. auto. }
+    assert (Hun' : forall i, ~ In i mrc' -> f i = fill).
+    { intros i Hni. destruct (in_dec Z.eq_dec i mrc) as [Hin|Hnin]; [|apply Hun; assumption].
+      destruct (Hval i Hin) as [b [Hb [Hnb Hfi]]].
+      destruct (Z.eq_dec (nth b md 0) fill) as [E|E]; [congruence|].
+      exfalso. apply Hni. apply in_map_iff. exists (i, nth b md 0). split; [reflexivity|].
+      apply filter_In. split; [rewrite <- Hnb; apply nth_In_combine; [lia|assumption]|].
+      cbn [snd]. rewrite negb_true_iff, Z.eqb_neq. assumption. }
+    assert (Hlen' : (length mrc' <= length mrc)%nat).
+    { unfold mrc', ps'. rewrite map_length. etransitivity; [apply filter_length_le|].
+      rewrite combine_length. lia. }
+    rewrite (np_sort_of_sorted mrc') by (apply SSlt_SSle; assumption).
+    destruct (first_gap_spec mrc' (-1) Hs') as [G1 [G2 G3]].
+    { eapply Forall_impl; [|exact Hr']. intros; cbn beta in *. lia. }
     cbn zeta in G1, G2, G3. change (-1 + 1) with 0 in G1, G2, G3.
-    set (j0 := first_gap mrc (-1) 0) in *.
+    set (j0 := first_gap mrc' (-1) 0) in *.
     assert (Hj0 : j0 < N).
     { apply Z.eqb_neq in T2. unfold zlen in T2. lia. }
     repeat split; try lia.
-    + intros j Hj. rewrite (Hun j0 G2). destruct (in_dec Z.eq_dec j mrc) as [Hin|Hnin].
-      * destruct (Hval j Hin) as [b [Hb [_ Hfj]]]. rewrite Hfj.
-        assert (Hd : In (nth b md 0) md) by (apply nth_In; lia).
-        specialize (Hlt _ Hd). unfold strictly_better in *. destruct maxm; lia.
-      * rewrite (Hun j Hnin). apply sb_irrefl.
-    + intros j Hj. rewrite (Hun j0 G2).
-      destruct (Hval j (G3 j ltac:(lia))) as [b [Hb [_ Hfj]]]. rewrite Hfj.
-      apply Hlt. apply nth_In. lia.
+    + intros j Hj. rewrite (Hun' j0 G2). destruct (in_dec Z.eq_dec j mrc') as [Hin|Hnin].
+      * destruct (Hsub j Hin) as [v [Hv Hne]]. rewrite (Hst j v Hv).
+        assert (Hd : In v md) by (eapply in_combine_r; exact Hv).
+        specialize (Hlt _ Hd Hne). unfold strictly_better in *. destruct maxm; lia.
+      * rewrite (Hun' j Hnin). apply sb_irrefl.
+    + intros j Hj. rewrite (Hun' j0 G2).
+      destruct (Hsub j (G3 j ltac:(lia))) as [v [Hv Hne]]. rewrite (Hst j v Hv).
+      apply Hlt; [eapply in_combine_r; exact Hv|assumption].
 Qed.
 
 (* ---- the stored entries of one trace of a 2-d COO whose coords are (reduce, index) *)
@@ -1379,12 +1459,11 @@ Definition arg_result (r : list Z * list Z) (k : Z) : Z := alist_get k (combine 
 Lemma argminmax_first_proof rc ic data N M fill maxm :
   length ic = length rc -> 0 < N ->
   canonical Z (mkCOO [N; M] (zip2 rc ic) data fill) ->
-  prunedb Z.eqb (mkCOO [N; M] (zip2 rc ic) data fill) = true ->
   forall k,
     first_best_on maxm (fun i => den (mkCOO [N; M] (zip2 rc ic) data fill) [i; k]) N
                   (arg_result (minmax_args rc ic data N fill maxm) k).
 Proof.
-  intros Hlen HN Hc Hp k. pose proof Hc as [Hr [Hs Hl]]. cbn [c_shape c_coords c_data] in Hr, Hs, Hl.
+  intros Hlen HN Hc k. pose proof Hc as [Hr [Hs Hl]]. cbn [c_shape c_coords c_data] in Hr, Hs, Hl.
   assert (Hzl : length (zip2 rc ic) = length rc).
   { unfold zip2. rewrite map_length, combine_length. lia. }
   destruct (zip2_in_range N M rc ic Hr Hlen) as [Hrr _].
@@ -1395,17 +1474,15 @@ Proof.
     first_best_on maxm (fun i => den (mkCOO [N; M] (zip2 rc ic) data fill) [i; k]) N
       (if existsb (fun d => better maxm d fill) (sel k ic data) || (zlen (sel k ic data) =? N)
        then znth (sel k ic rc) (np_argbest maxm (sel k ic data))
-       else first_gap (np_sort (sel k ic rc)) (-1) 0)).
+       else first_gap (np_sort (map fst (filter (fun p => negb (snd p =? fill))
+                                                (combine (sel k ic rc) (sel k ic data))))) (-1) 0)).
   { apply col_first_best; try assumption.
     - apply col_sorted; assumption.
     - apply sel_Forall. assumption.
     - apply sel_length; lia.
     - intros i v Hin. apply den_stored; [assumption|]. unfold entries. cbn [c_coords c_data].
       apply selc_combine_In. assumption.
-    - intros i Hn. apply den_unstored. cbn [c_coords]. intros Hin. apply Hn. apply selc_In. assumption.
-    - intros v Hv Heq. subst v. apply (pruned_notin _ Hp). cbn [c_fill c_data].
-      unfold sel in Hv. apply in_map_iff in Hv. destruct Hv as [[g d] [<- Hf]]. apply filter_In in Hf.
-      destruct Hf as [Hf _]. apply in_combine_r in Hf. assumption. }
+    - intros i Hn. apply den_unstored. cbn [c_coords]. intros Hin. apply Hn. apply selc_In. assumption. }
   destruct (in_dec Z.eq_dec k (np_unique ic)) as [Hin|Hnin]; [exact Hcol|].
   (* no stored entry in this trace: the answer is the result's fill value 0 *)
   assert (Hnone : Forall (fun g => g <> k) ic).
@@ -1481,32 +1558,6 @@ Qed.
    of the statements that are FALSE of the code as it stands; each is the reason for one named
    domain clause of Corr/C10Judge.v *)
 
-(* without `pruned` the kernel theorem fails: a stored value equal to the fill value before the
-   first unstored position is skipped by the first-gap search *)
-Lemma argminmax_first_unpruned_refuted_proof :
-  exists rc ic data N M fill maxm k,
-    length ic = length rc /\ 0 < N /\ canonicalb (mkCOO [N; M] (zip2 rc ic) data fill) = true /\
-    ~ first_best_on maxm (fun i => den (mkCOO [N; M] (zip2 rc ic) data fill) [i; k]) N
-                    (arg_result (minmax_args rc ic data N fill maxm) k).
-Proof.
-  exists [0], [0], [0], 2, 1, 0, true, 0. repeat split; try (vm_compute; congruence).
-  intros [_ [_ H]].
-  assert (E : arg_result (minmax_args [0] [0] [0] 2 0 true) 0 = 1) by (vm_compute; reflexivity).
-  rewrite E in H. specialize (H 0 ltac:(lia)). vm_compute in H. discriminate.
-Qed.
-
-(* without `pruned`: unique_values / unique_counts repeat the fill value, nonzero reports a stored zero *)
-Lemma unique_values_unpruned_refuted_proof :
-  exists x, canonicalb x = true /\ ss_unique_values x <> np_unique_values (todense x).
-Proof. exists (mkCOO [3] [[0]; [1]] [2; 5] 2). split; vm_compute; congruence. Qed.
-
-Lemma unique_counts_unpruned_refuted_proof :
-  exists x, canonicalb x = true /\ ss_unique_counts x <> np_unique_counts_arr (todense x).
-Proof. exists (mkCOO [3] [[0]; [1]] [2; 5] 2). split; vm_compute; congruence. Qed.
-
-Lemma nonzero_unpruned_refuted_proof :
-  exists x, canonicalb x = true /\ c_fill x = 0 /\ c_coords x <> np_argwhere (todense x).
-Proof. exists (mkCOO [3] [[0]; [2]] [0; 5] 0). repeat split; vm_compute; congruence. Qed.
 
 
 (* ================================================================== the sort wrapper
@@ -2097,12 +2148,12 @@ Qed.
    holds, for every index k of the other axis, np.argmax / np.argmin of the dense column k *)
 Lemma argminmax_2d_first_axis_proof (maxm kd : bool) (N M axis : Z) (cs : list idx) (data : list Z) (fill : Z) :
   (axis = 0 \/ axis = -2) -> 0 < N -> 0 <= M ->
-  canonical Z (mkCOO [N; M] cs data fill) -> prunedb Z.eqb (mkCOO [N; M] cs data fill) = true ->
+  canonical Z (mkCOO [N; M] cs data fill) ->
   exists z, ss_argminmax maxm (mkCOO [N; M] cs data fill) (Some axis) kd = Ok z
     /\ c_shape z = (if kd then [1; M] else [M])
     /\ forall k, den z (arg_emb kd k) = np_argbest maxm (col2 (mkCOO [N; M] cs data fill) N k).
 Proof.
-  intros Hax HN HM Hc Hp. pose proof Hc as [Hr [Hs Hl]]. cbn [c_shape c_coords c_data] in Hr, Hs, Hl.
+  intros Hax HN HM Hc. pose proof Hc as [Hr [Hs Hl]]. cbn [c_shape c_coords c_data] in Hr, Hs, Hl.
   rewrite (ss_argminmax_2d_axis0 maxm kd N M axis cs data fill Hax HN HM Hr). cbv zeta.
   set (rc := map (fun ix => znth ix 0) cs). set (ic := map (fun ix => znth ix 1) cs).
   assert (Hz : zip2 rc ic = cs) by (apply (zip2_cols N M); assumption).
@@ -2112,8 +2163,8 @@ Proof.
                 (fst (minmax_args rc ic data N fill maxm)) (snd (minmax_args rc ic data N fill maxm)) k
                 (arg_emb_inj kd)) as Hden.
   cbv zeta in Hden. rewrite Hden.
-  - rewrite <- Hz in Hc, Hp.
-    pose proof (argminmax_first_proof rc ic data N M fill maxm Hlen HN Hc Hp k) as Hfb.
+  - rewrite <- Hz in Hc.
+    pose proof (argminmax_first_proof rc ic data N M fill maxm Hlen HN Hc k) as Hfb.
     apply first_best_np in Hfb. unfold arg_result in Hfb. rewrite Hz in Hfb. exact Hfb.
   - unfold minmax_args. cbn [fst]. apply SS_lex_NoDup_Z. apply np_unique_strict.
   - unfold minmax_args. cbn [fst snd]. apply map_length.
